@@ -1,5 +1,7 @@
 package graphql
 
+import "sort"
+
 type SchemaConfig struct {
 	Query        *Object
 	Mutation     *Object
@@ -110,8 +112,13 @@ func NewSchema(config SchemaConfig) (Schema, error) {
 	if schema.implementations == nil {
 		schema.implementations = map[string][]*Object{}
 	}
-	for _, ttype := range schema.typeMap {
-		if ttype, ok := ttype.(*Object); ok {
+	typeNames := make([]string, 0, len(schema.typeMap))
+	for typeName := range schema.typeMap {
+		typeNames = append(typeNames, typeName)
+	}
+	sort.Strings(typeNames)
+	for _, typeName := range typeNames {
+		if ttype, ok := schema.typeMap[typeName].(*Object); ok {
 			for _, iface := range ttype.Interfaces() {
 				impls, ok := schema.implementations[iface.Name()]
 				if impls == nil || !ok {
